@@ -830,7 +830,9 @@ func constString(t *Term) string {
 }
 
 // SymName is the SMT-LIB symbol for a variable.
-func SymName(name string) string { return "|" + strings.NewReplacer("|", "_", "\\", "_").Replace(name) + "|" }
+func SymName(name string) string {
+	return "|" + strings.NewReplacer("|", "_", "\\", "_").Replace(name) + "|"
+}
 
 // ref is how a term is referred to inside other definitions.
 func ref(t *Term) string {
